@@ -155,6 +155,53 @@ def check_roundtrip(replies, k, res, esc_false=False):
     return viol
 
 
+# ---- part F: histories of attribute assignments on one Reply object
+F_OPS = ([('code', c) for c in ('250', '450', '550', '354')] +
+         [('message', m) for m in ('2.1.0 ok', 'plain text', '5.7.1 denied', '4.3.0 later\r\nsecond line', '')] +
+         [('esc', e) for e in ('2.1.5', '5.0.0', '4.4.4', None)])
+_wire_esc = re.compile(br'^(\d)\d\d[ -]([245])\.\d{1,3}\.\d{1,3}(?= |\r|$)')
+
+
+def check_history(hist, res):
+    """Applies the assignments to one Reply (starting from Reply('250', 'ok')); after every step the object and what it
+    writes must agree on the class: ESC class == code class, on the object and on every line of the wire form."""
+    r = Reply('250', 'ok')
+    out = []
+    for i, (attr, val) in enumerate(hist):
+        try:
+            if attr == 'code':
+                r.code = val
+            elif attr == 'message':
+                r.message = val
+            else:
+                r.enhanced_status_code = val
+        except Exception as e:
+            out.append(({'part': 'history', 'kind': 'setter-raised', 'exception': type(e).__name__},
+                        'history %r: step %d raised %r' % (hist, i, e), {'kind': 'history', 'hist': [list(h) for h in hist]}))
+            return out
+        code = r.code
+        esc = r.enhanced_status_code
+        sock = ScriptSocket(b'', FixedCtl('all'))
+        io = IO(sock, ('peer', 0))
+        r.send(io)
+        io.flush_send()
+        wire = sock.sent()
+        res.outcome((code, esc, wire))
+        rep = {'kind': 'history', 'hist': [list(h) for h in hist[:i + 1]]}
+        if esc and code and code[0] in '245' and esc[0] != code[0]:
+            out.append(({'part': 'history', 'kind': 'esc-class', 'where': 'object', 'last_op': attr},
+                        'history %r: after step %d the reply has code %s and ESC %s' % (hist[:i + 1], i, code, esc), rep))
+        for line in wire.split(b'\r\n'):
+            m = _wire_esc.match(line)
+            if m and m.group(1) in b'245' and m.group(1) != m.group(2):
+                out.append(({'part': 'history', 'kind': 'esc-class', 'where': 'wire', 'last_op': attr},
+                            'history %r: after step %d the reply is written as %r' % (hist[:i + 1], i, wire), rep))
+                break
+        if out:
+            return out
+    return out
+
+
 # ---- reference parser for part D (three-valued)
 _ref_line = re.compile(br'^(\d\d\d)([ \t-])(.*)$', re.S)
 
@@ -248,6 +295,7 @@ ELINES = [b'250-a', b'250 a', b'251-b', b'251 b', b'550-c', b'550 c', b'25x d', 
 def configs(tier, seed):
     cfgs = [{'part': 'A', 'lo': lo, 'hi': lo + 25} for lo in range(200, 600, 25)]
     cfgs += [{'part': 'E', 'k': k, 'of': 4} for k in range(4)]
+    cfgs += [{'part': 'F', 'k': k, 'of': 4} for k in range(4)]
     cfgs += [{'part': 'B', 'k': k, 'of': 48} for k in range(48)]
     cfgs += [{'part': 'C', 'k': k, 'of': 48} for k in range(48)]
     cfgs += [{'part': 'D', 'k': k, 'of': 32} for k in range(32)]
@@ -294,6 +342,20 @@ def run_config(cfg, tier, seed):
                     res.count('sequence_cases')
                 if i % 97 == cfg['k']:
                     res.sample({'part': 'C', 'replies': seq, 'wire': b2s(wire_of(list(seq))[0])})
+    elif part == 'F':
+        depth = 3 if tier == 'quick' else 4
+        i = 0
+        for n in range(1, depth + 1):
+            for hist in itertools.product(F_OPS, repeat=n):
+                i += 1
+                if i % cfg['of'] != cfg['k']:
+                    continue
+                res.evaluations += 1
+                res.count('assignment_histories')
+                res.interesting(hist)
+                for v in check_history(hist, res):
+                    res.violation(*v)
+        res.sample({'part': 'F', 'history': [['message', '2.1.0 ok'], ['code', '550']], 'depth': depth})
     elif part == 'E':
         # multi-line shapes: every sequence of 2..3 (4 thorough) lines from a menu, CRLF or LF terminated
         i = 0
@@ -338,7 +400,9 @@ def vacuity(counters, tier):
 
 def replay(rep):
     res = Result()
-    if rep['kind'] == 'roundtrip':
+    if rep['kind'] == 'history':
+        vs = check_history([tuple(h) for h in rep['hist']], res)
+    elif rep['kind'] == 'roundtrip':
         vs = check_roundtrip([tuple(x) for x in rep['replies']], rep['k'], res, rep.get('esc_false', False))
     else:
         vs = check_malformed(s2b(rep['data']), res)
